@@ -518,7 +518,11 @@ def run_given(ctx: Ctx, strategy, body, max_examples: int, salt: int = 0, shrink
             if type(e).__module__.startswith('hypothesis'):
                 raise HarnessError(f'hypothesis error: {e!r}') from e
             # An exception that the body did not classify: report it under a
-            # generic clause, with the AEIC frame as root-cause key.
+            # generic clause, with the AEIC frame as root-cause key.  If no
+            # frame of the code under test is involved it is a defect of the
+            # harness (generator, oracle), never a violation.
+            if aeic_frame(e) == '?':
+                raise HarnessError(f'exception outside the code under test: {e!r}\n' + ''.join(traceback.format_exception(e))[-3000:]) from e
             try:
                 ctx.fail_exc('unclassified', e)
             except Violation:
@@ -559,6 +563,8 @@ def run_machine(ctx: Ctx, machine_cls, max_examples: int, steps: int, salt: int 
                 return  # every further case hits an already reported cause
             if type(e).__module__.startswith('hypothesis'):
                 raise HarnessError(f'hypothesis error: {e!r}') from e
+            if aeic_frame(e) == '?':
+                raise HarnessError(f'exception outside the code under test: {e!r}\n' + ''.join(traceback.format_exception(e))[-3000:]) from e
             try:
                 ctx.in_machine = False  # outside Hypothesis here: AlreadyReported instead of reject()
                 ctx.fail_exc('unclassified', e)
